@@ -11,6 +11,9 @@
                   not -- with its e.name, another exception, or the package), and the
                   test that tells a missing package from a failing import is part of
                   the model
+     ImportedNamespace path   ... the package is an implicit one (no __file__): the entries
+                  of its __path__ (directory, glob of the directory), repetitions included
+     ctor_raises c   calling the class raises, by whatever mechanism ([ctor_behaviour])
      needed p     the classes with MODE_NAME and not DISABLED of the importable
                   modules other than __init__.py, in scan order
      ctor_calls r the constructor calls __init__ made, as (file, class) pairs
@@ -201,6 +204,77 @@ Proof. exact init_no_fms_raises_iff. Qed.
 (* FMS attached: never raises, whatever the import did *)
 Theorem C14_init_fms_never_raises : forall pkgname i, exists r, init true pkgname i = Built r.
 Proof. exact init_fms_never_raises. Qed.
+
+(* ---- failing constructors, whatever makes them fail ------------------ *)
+
+(* [ctor_raises c]: the call obj(args..) of the class raises.  The model -- like
+   the selector -- knows nothing about the mechanism: an __init__ that raises, a
+   __new__ or a metaclass __call__ that raises, an abstract class (abc; TypeError
+   out of object.__new__), an __init__ that wants arguments ([ctor_behaviour],
+   [fails]: all but [Constructs]).  For EVERY layout and every such class with
+   MODE_NAME, not DISABLED, in an importable module: start-up raises without FMS;
+   with FMS the call is made, the class is not offered (nothing that failed to
+   construct is in selector.modes), and every healthy mode is still offered and
+   selectable. *)
+Theorem C14_failing_constructor_policy : forall p i,
+  In i (needed p) -> ctor_raises (icls i) = true ->
+  (exists e c, discover false p = Raised e c) /\
+  (exists r, discover true p = Built r /\
+     In (call_of i) (ctor_calls r) /\
+     (forall k j, In (k, j) (modes r) -> ctor_raises (icls j) = false) /\
+     (no_key_clash p ->
+      forall j, In j (needed p) -> healthy j = true ->
+        exists k, (k = name_of j \/ k = renamed j) /\
+                  dict_get k (modes r) = Some j /\
+                  In k (option_names r) /\
+                  (choosable k -> chooser_selected (chooser_of r) (Some k) = Some j))).
+Proof. exact failing_constructor_policy. Qed.
+
+(* whatever was built, FMS or not: only constructed instances are in selector.modes *)
+Theorem C14_modes_are_constructed : forall fms p r,
+  discover fms p = Built r -> forall k i, In (k, i) (modes r) -> ctor_raises (icls i) = false.
+Proof. exact built_modes_constructed. Qed.
+
+(* ---- implicit (namespace) packages ---------------------------------- *)
+
+(* A package without __file__ is scanned through its __path__, which may list
+   several directories and the same directory several times (it is on sys.path
+   twice).  [path_dirs] = list(set(__path__)): every directory once ... *)
+Theorem C14_namespace_path_is_a_set : forall path,
+  NoDup (map pdir (path_dirs path)) /\
+  (forall po, In po (path_dirs path) -> In po path) /\
+  (forall d, In d (map pdir path) <-> In d (map pdir (path_dirs path))).
+Proof. exact path_dirs_set. Qed.
+
+(* ... hence every module file of every directory is scanned exactly once
+   ([path_ok]: what the file system guarantees about the listings) ... *)
+Theorem C14_namespace_modules_once : forall path, path_ok path ->
+  NoDup (map file (path_modules path)) /\
+  (forall m, In m (path_modules path) <-> in_path path m).
+Proof. exact path_modules_once. Qed.
+
+(* ... an entry that names a directory listed earlier changes NOTHING: same
+   outcome, same constructor calls, same modes, same chooser ... *)
+Theorem C14_namespace_repeated_directory_ignored : forall fms pkgname pre po mid po' post,
+  pdir po' = pdir po ->
+  init fms pkgname (ImportedNamespace (pre ++ po :: mid ++ po' :: post)) =
+  init fms pkgname (ImportedNamespace (pre ++ po :: mid ++ post)).
+Proof. exact namespace_repeated_directory_ignored. Qed.
+
+(* ... and "once each" holds for implicit packages: whenever construction
+   succeeds no constructor call is repeated, a class found in a module of one of
+   the directories is called iff it defines MODE_NAME and is not DISABLED, and
+   nothing else is called. *)
+Theorem C14_namespace_instantiated_once : forall fms pkgname path r,
+  init fms pkgname (ImportedNamespace path) = Built r ->
+  path_ok path ->
+  (forall m, in_path path m -> NoDup (map cname (classes m))) ->
+  NoDup (ctor_calls r) /\
+  (forall m c, in_path path m -> mname m <> "__init__" -> import_fails m = false -> In c (classes m) ->
+     (In (file m, cname c) (ctor_calls r) <-> is_needed c = true)) /\
+  (forall x, In x (ctor_calls r) ->
+     exists m c, in_path path m /\ In c (classes m) /\ is_needed c = true /\ x = (file m, cname c)).
+Proof. exact namespace_instantiated_once. Qed.
 
 (* ---- selection ---------------------------------------------------- *)
 
@@ -500,6 +574,66 @@ Proof.
   split; [unfold clock_monotone; simpl; intuition discriminate|]. split; reflexivity.
 Qed.
 
+(* five ways of failing, one healthy mode: raised without FMS at the first of
+   them; with FMS all six calls are made and only the healthy mode is offered *)
+Definition ex_failing_pkg : package :=
+  PkgPresent [
+    mkMod "m" "/p/m.py" false
+      [mkCls "A" (Some "abstract") false false (fails AbstractClass);
+       mkCls "G" (Some "good") false true (fails Constructs);
+       mkCls "I" (Some "init") false false (fails InitRaises);
+       mkCls "M" (Some "meta") false false (fails MetaCallRaises);
+       mkCls "N" (Some "new") false true (fails NewRaises);
+       mkCls "W" (Some "wants") false false (fails NeedsArguments)]].
+
+Example ex_failing_constructors :
+  discover false ex_failing_pkg = Raised (ErrCtor "/p/m.py" "A") [("/p/m.py", "A")] /\
+  In (mkInst "/p/m.py" (mkCls "A" (Some "abstract") false false true)) (needed ex_failing_pkg) /\
+  no_key_clash ex_failing_pkg /\
+  exists r, discover true ex_failing_pkg = Built r /\
+    map snd (ctor_calls r) = ["A"; "G"; "I"; "M"; "N"; "W"] /\
+    map fst (modes r) = ["good"] /\ option_names r = ["good"; "None"] /\ preselection r = "good".
+Proof.
+  split; [reflexivity|]. split; [simpl; auto|]. split.
+  - split; simpl.
+    + repeat constructor; simpl; intuition discriminate.
+    + intros i j Hi Hj. repeat (destruct Hi as [Hi|Hi]; [subst i|]); try contradiction;
+        repeat (destruct Hj as [Hj|Hj]; [subst j|]); try contradiction; discriminate.
+  - eexists. split; [vm_compute; reflexivity|]. vm_compute. auto.
+Qed.
+
+(* an implicit package whose __path__ is [/a/p; /b/p; /a/p] (sys.path lists /a
+   twice, /b contributes another module): two directories, three module files,
+   each class called once; exactly what __path__ = [/a/p; /b/p] gives *)
+Definition ex_po_a : portion :=
+  mkPortion "/a/p" [mkMod "left" "/a/p/left.py" false [mkCls "L" (Some "Left") false true false];
+                    mkMod "right" "/a/p/right.py" false [mkCls "R" (Some "Right") false false false]].
+Definition ex_po_b : portion :=
+  mkPortion "/b/p" [mkMod "mid" "/b/p/mid.py" false [mkCls "M" (Some "Mid") false false false]].
+
+Example ex_namespace_path :
+  path_ok [ex_po_a; ex_po_b; ex_po_a] /\
+  map pdir (path_dirs [ex_po_a; ex_po_b; ex_po_a]) = ["/a/p"; "/b/p"] /\
+  init false "p" (ImportedNamespace [ex_po_a; ex_po_b; ex_po_a]) = init false "p" (ImportedNamespace [ex_po_a; ex_po_b]) /\
+  init false "p" (ImportedNamespace [ex_po_a; ex_po_a]) = init false "p" (Imported (pfiles ex_po_a)) /\
+  exists r, init false "p" (ImportedNamespace [ex_po_a; ex_po_b; ex_po_a]) = Built r /\
+    ctor_calls r = [("/a/p/left.py", "L"); ("/a/p/right.py", "R"); ("/b/p/mid.py", "M")] /\
+    map fst (modes r) = ["Left"; "Right"; "Mid"] /\ preselection r = "Left".
+Proof.
+  split.
+  - split; [|split].
+    + intros a b Ha Hb. simpl in Ha, Hb.
+      destruct Ha as [Ha|[Ha|[Ha|[]]]], Hb as [Hb|[Hb|[Hb|[]]]]; subst; simpl; intros H; try reflexivity; discriminate.
+    + intros a b m n Ha Hb. simpl in Ha, Hb.
+      destruct Ha as [Ha|[Ha|[Ha|[]]]], Hb as [Hb|[Hb|[Hb|[]]]]; subst; simpl; intros Hm Hn H; try reflexivity;
+        repeat (destruct Hm as [Hm|Hm]; [subst m|]); try contradiction;
+        repeat (destruct Hn as [Hn|Hn]; [subst n|]); try contradiction; discriminate.
+    + intros a Ha. simpl in Ha. destruct Ha as [Ha|[Ha|[Ha|[]]]]; subst; simpl;
+        repeat constructor; simpl; intuition discriminate.
+  - split; [reflexivity|]. split; [reflexivity|]. split; [reflexivity|].
+    eexists. split; [vm_compute; reflexivity|]. vm_compute. auto.
+Qed.
+
 Print Assumptions C14_constructor_calls.
 Print Assumptions C14_instantiated_exactly.
 Print Assumptions C14_raise_calls_prefix.
@@ -522,6 +656,12 @@ Print Assumptions C14_missing_submodule_raises.
 Print Assumptions C14_missing_sibling_raises.
 Print Assumptions C14_init_no_fms_raises_iff.
 Print Assumptions C14_init_fms_never_raises.
+Print Assumptions C14_failing_constructor_policy.
+Print Assumptions C14_modes_are_constructed.
+Print Assumptions C14_namespace_path_is_a_set.
+Print Assumptions C14_namespace_modules_once.
+Print Assumptions C14_namespace_repeated_directory_ignored.
+Print Assumptions C14_namespace_instantiated_once.
 Print Assumptions C14_selection_dashboard.
 Print Assumptions C14_selection_chooser.
 Print Assumptions C14_lifecycle.
